@@ -173,12 +173,16 @@ def update_uid_counter(H, idx):
 
     """
     uid = next(H._edge_uid)
-    if (
-        not isinstance(idx, str)
-        and not isinstance(idx, tuple)
-        and float(idx).is_integer()
-        and uid <= idx
-    ):
+    try:
+        integer_like = (
+            not isinstance(idx, str)
+            and not isinstance(idx, tuple)
+            and float(idx).is_integer()
+        )
+    except (TypeError, ValueError):
+        # any other hashable ID (frozenset, bytes, ...) is not a number
+        integer_like = False
+    if integer_like and uid <= idx:
         # tuple comes from merging edges and doesn't have as as_integer() method.
         start = int(idx) + 1
         # we set the start at one plus the maximum edge ID that is an integer,
